@@ -141,6 +141,8 @@ type impl struct {
 	rbt   *rbt.RBT
 	depth int
 	regs  [][]*unionstore.MemDBCheckpoint
+	bsnap unionstore.MemBufferSnapshot // a batched snapshot iterator kept across operations (bopen / bnext)
+	bit   unionstore.Iterator
 }
 
 func newImpl(name string) *impl {
@@ -309,11 +311,16 @@ func (im *impl) exec(f []string) (res string) {
 		}
 		return kvsStr(collect(it))
 	case "iterf":
-		lo, hi := dec(f[1]), dec(f[2])
+		lo, hi := dec(f[2]), dec(f[3])
 		var it flagIter
-		if im.art != nil {
+		switch {
+		case f[1] == "1" && im.art != nil:
+			it = im.art.IterReverseWithFlags(hi) // reverse: no lower bound in the API
+		case f[1] == "1":
+			it = im.rbt.IterReverseWithFlags(hi)
+		case im.art != nil:
 			it = im.art.IterWithFlags(lo, hi)
-		} else {
+		default:
 			it = im.rbt.IterWithFlags(lo, hi)
 		}
 		var sb strings.Builder
@@ -338,6 +345,34 @@ func (im *impl) exec(f []string) (res string) {
 			}
 		}
 		return sb.String()
+	case "bopen":
+		// GetSnapshot().BatchedSnapshotIter kept open across the following operations
+		if im.depth == 0 {
+			return "nostage"
+		}
+		im.bsnap = mb.GetSnapshot()
+		if f[1] == "1" {
+			im.bit = im.bsnap.BatchedSnapshotIter(dec(f[2]), dec(f[3]), true)
+		} else {
+			im.bit = im.bsnap.BatchedSnapshotIter(dec(f[2]), dec(f[3]), false)
+		}
+		return "ok"
+	case "bnext":
+		if im.bit == nil {
+			return "none"
+		}
+		n, _ := strconv.Atoi(f[1])
+		var l []kvp
+		for i := 0; i < n && im.bit.Valid(); i++ {
+			l = append(l, kvp{cp(im.bit.Key()), cp(im.bit.Value())})
+			if err := im.bit.Next(); err != nil {
+				break
+			}
+		}
+		if im.bit.Valid() {
+			return kvsStr(l) + "|v"
+		}
+		return kvsStr(l) + "|x"
 	case "sget":
 		e, err := mb.SnapshotGetter().Get(ctx, dec(f[1]))
 		if err != nil {
@@ -507,7 +542,7 @@ func newRunner(id string) *runner {
 // fullDump is the in-process pairwise comparison of every observable after a mutator
 func fullDump(im *impl) string {
 	var sb strings.Builder
-	for _, f := range [][]string{{"len"}, {"size"}, {"dirty"}, {"iterf", "-", "-"}, {"iter", "0", "-", "-"},
+	for _, f := range [][]string{{"len"}, {"size"}, {"dirty"}, {"iterf", "0", "-", "-"}, {"iterf", "1", "-", "-"}, {"iter", "0", "-", "-"},
 		{"iter", "1", "-", "-"}, {"siter", "0", "-", "-"}, {"siter", "1", "-", "-"}} {
 		sb.WriteString(im.exec(f))
 		sb.WriteByte('|')
@@ -523,12 +558,8 @@ func fullDump(im *impl) string {
 func (rn *runner) iterOracles(f []string, res string) {
 	var rev bool
 	var lo, hi []byte
-	if f[0] == "iterf" {
-		lo, hi = dec(f[1]), dec(f[2])
-	} else {
-		rev = f[1] == "1"
-		lo, hi = dec(f[2]), dec(f[3])
-	}
+	rev = f[1] == "1"
+	lo, hi = dec(f[2]), dec(f[3])
 	if !strings.HasPrefix(res, "kv:") && !strings.HasPrefix(res, "kfv:") {
 		return // a panicking iterator is reported by the comparisons, not by this oracle
 	}
@@ -598,6 +629,18 @@ func (rn *runner) snapshotApis(im *impl, lo, hi []byte, rev bool, want string) {
 	if s := kvsStr(l); s != want {
 		pfail("snapshot-apis-agree", rn.id, rn.idx, im.name, "foreach", s, want)
 	}
+	if len(l) > 1 {
+		// early stop: the callback asks to stop after n entries
+		n, got := 1+len(l)/2, []kvp(nil)
+		_ = snap.ForEachInSnapshotRange(lo, hi, func(k, v []byte) (bool, error) {
+			got = append(got, kvp{cp(k), cp(v)})
+			return len(got) >= n, nil
+		}, rev)
+		pcount("snapshot-apis-agree")
+		if kvsStr(got) != kvsStr(l[:n]) {
+			pfail("snapshot-apis-agree", rn.id, rn.idx, im.name, "foreach-stop", kvsStr(got), kvsStr(l[:n]))
+		}
+	}
 	// F25 (fixed by f5829fa): a reverse batched scan over a buffer holding the empty key used to restart forever;
 	// collect() caps a runaway iterator, the watchdog catches a call that never returns.
 	pcount("snapshot-apis-agree")
@@ -639,7 +682,9 @@ func (rn *runner) step(f []string, staleProbe bool) string {
 	rr := rn.r.exec(f)
 	fmt.Fprintf(out, "O\t%s\t=>\t%s\n", strings.Join(f, "\t"), ra)
 	heartbeat(rn.id, rn.idx, strings.Join(f, "\t"), true)
-	if f[0] != "seq" && f[0] != "tree" {
+	if f[0] == "bnext" && ra == "kv:|x" {
+		// ART declared the snapshot stale (SnapshotSeqNo moved); the RBT snapshot has no such check: not compared
+	} else if f[0] != "seq" && f[0] != "tree" {
 		pcount("art-rbt-agree")
 		if ra != rr {
 			pfail("art-rbt-agree", rn.id, rn.idx, strings.Join(f, " "), "art="+ra, "rbt="+rr)
@@ -724,6 +769,7 @@ type gen struct {
 	regs   []int // tokens per level
 	cls    string
 	values map[string][]byte // last value written per key (to produce same-length overwrites)
+	bopen  bool              // a batched snapshot iterator is open
 }
 
 var allFops = 22
@@ -875,6 +921,14 @@ func (g *gen) observers(touched []byte, final bool) [][]string {
 			r = append(r, []string{"tree"})
 		}
 	}
+	// a batched snapshot iterator that lives across the following writes
+	if g.depth > 0 && g.rng.Intn(100) < 8 {
+		r = append(r, []string{"bopen", strconv.Itoa(g.rng.Intn(2)), g.bound(), g.bound()})
+		g.bopen = true
+	}
+	if g.bopen && g.rng.Intn(100) < 35 {
+		r = append(r, []string{"bnext", strconv.Itoa(1 + g.rng.Intn(40))})
+	}
 	cand := [][]byte{g.pickKey()}
 	if touched != nil {
 		cand = append(cand, touched)
@@ -890,7 +944,11 @@ func (g *gen) observers(touched []byte, final bool) [][]string {
 		r = append(r, []string{"siter", strconv.Itoa(g.rng.Intn(2)), g.bound(), g.bound()})
 	}
 	if g.rng.Intn(100) < 15 {
-		r = append(r, []string{"iterf", g.bound(), g.bound()})
+		if g.rng.Intn(3) == 0 {
+			r = append(r, []string{"iterf", "1", "-", g.bound()}) // IterReverseWithFlags(upper)
+		} else {
+			r = append(r, []string{"iterf", "0", g.bound(), g.bound()})
+		}
 	}
 	if g.rng.Intn(100) < 20 {
 		r = append(r, []string{"inspect", strconv.Itoa(g.rng.Intn(g.depth + 2))})
@@ -900,7 +958,7 @@ func (g *gen) observers(touched []byte, final bool) [][]string {
 		r = append(r, []string{"hist", enc(g.pickKey()), p})
 	}
 	if final {
-		r = append(r, []string{"iter", "0", "-", "-"}, []string{"iter", "1", "-", "-"}, []string{"iterf", "-", "-"},
+		r = append(r, []string{"iter", "0", "-", "-"}, []string{"iter", "1", "-", "-"}, []string{"iterf", "0", "-", "-"},
 			[]string{"siter", "0", "-", "-"}, []string{"siter", "1", "-", "-"})
 		for h := 1; h <= g.depth; h++ {
 			r = append(r, []string{"inspect", strconv.Itoa(h)})
@@ -1103,6 +1161,24 @@ func genSeq(rng *rand.Rand, id, cls string, nops int) {
 		}
 		rn.step([]string{"siter", "0", "-", "-"}, false)
 		rn.step([]string{"siter", "1", "-", "-"}, false)
+		// batched iterators consumed in pieces across batch boundaries with staged writes in between
+		for _, rv := range []string{"0", "1"} {
+			lo := "-"
+			if rng.Intn(2) == 0 {
+				lo = g.bound()
+			}
+			rn.step([]string{"bopen", rv, lo, "-"}, false)
+			for i := 0; i < 6; i++ {
+				rn.step([]string{"bnext", strconv.Itoa(5 + rng.Intn(60))}, false)
+				if g.depth > 0 {
+					k := g.pickKey()
+					v := g.pickValue(k)
+					g.values[string(k)] = v
+					rn.step([]string{"set", enc(k), enc(v), "-"}, stale())
+				}
+			}
+			rn.step([]string{"bnext", "1000"}, false)
+		}
 	}
 	if cls == "cp" {
 		// the F03b shape, embedded at a random depth
@@ -1140,7 +1216,7 @@ func directed() {
 		for _, o := range ops {
 			rn.step(o, false)
 			if isMutator(o[0]) {
-				for _, ob := range [][]string{{"len"}, {"size"}, {"dirty"}, {"seq"}, {"iterf", "-", "-"}, {"tree"}} {
+				for _, ob := range [][]string{{"len"}, {"size"}, {"dirty"}, {"seq"}, {"iterf", "0", "-", "-"}, {"tree"}} {
 					rn.step(ob, false)
 				}
 			}
@@ -1177,7 +1253,7 @@ func directed() {
 	emit("d-emptybound", [][]string{
 		{"set", "-", "7630", "-"}, {"set", "61", "7631", "-"}, {"flags", "62", "2"},
 		{"iter", "0", "-", "_"}, {"iter", "0", "_", "_"}, {"iter", "0", "_", "-"}, {"iter", "0", "_", "62"}, {"iter", "0", "61", "_"},
-		{"iter", "1", "-", "_"}, {"iter", "1", "_", "_"}, {"iter", "1", "_", "-"}, {"iterf", "-", "_"}, {"iterf", "_", "_"}, {"iterf", "_", "-"},
+		{"iter", "1", "-", "_"}, {"iter", "1", "_", "_"}, {"iter", "1", "_", "-"}, {"iterf", "0", "-", "_"}, {"iterf", "0", "_", "_"}, {"iterf", "0", "_", "-"}, {"iterf", "1", "-", "_"}, {"iterf", "1", "-", "61"}, {"iterf", "1", "-", "-"},
 		{"siter", "0", "-", "_"}, {"siter", "1", "_", "_"},
 		{"staging"}, {"set", "63", "7632", "-"},
 		{"siter", "0", "-", "_"}, {"siter", "0", "_", "_"}, {"siter", "1", "-", "-"}, {"siter", "1", "_", "_"}, {"siter", "1", "_", "-"}, {"siter", "1", "62", "_"},
@@ -1254,7 +1330,7 @@ func replay(mode, path string) {
 			if o[0] == "set" || o[0] == "flags" {
 				keyset[o[1]] = true
 			}
-			for _, ob := range [][]string{{"len"}, {"size"}, {"dirty"}, {"seq"}, {"tree"}, {"iterf", "-", "-"}, {"iter", "0", "-", "-"},
+			for _, ob := range [][]string{{"len"}, {"size"}, {"dirty"}, {"seq"}, {"tree"}, {"iterf", "0", "-", "-"}, {"iter", "0", "-", "-"},
 				{"iter", "1", "-", "-"}, {"siter", "0", "-", "-"}, {"siter", "1", "-", "-"}} {
 				rn.step(ob, false)
 			}
@@ -1324,7 +1400,7 @@ func main() {
 			cls       string
 			n, nops   int
 		}{
-			{"small", 1100, 60}, {"prefix", 700, 60}, {"fan", 220, 40}, {"bigval", 260, 40}, {"limits", 300, 50},
+			{"small", 1000, 60}, {"prefix", 650, 60}, {"fan", 220, 40}, {"bigval", 260, 40}, {"limits", 300, 50},
 			{"cp", 500, 50}, {"f02", 200, 30}, {"batch", 24, 6},
 		}
 		for _, p := range plan {
